@@ -273,3 +273,29 @@ Theorem C15_default_mode_is_reference_up_to_obs_total :
     obs (mout (fst fast)) = obs (mout (fst ref)) /\ snd fast = snd ref.
 Proof. exact InstBulkTerm.xml_default_mode_is_reference_up_to_obs_total. Qed.
 Print Assumptions C15_default_mode_is_reference_up_to_obs_total.
+
+(* default-mode chunk independence for xml from a fresh tokenizer without regularity hypotheses
+   (Inst/InstTotalDefault.v; J holds of every fresh machine): only the fuel bounds and the driver's pause limit 96 *)
+From HV Require TokIR.NoPanic Inst.InstNoPanicX Inst.InstTotalDefault.
+Theorem C15_default_mode_chunking_independent_obs_total :
+  forall simd ent c1 sk fuel1 fuel2 inj cs1 cs2 s0 last, InstNoPanicX.xml_kind_ok s0 = true ->
+  all_nonempty cs1 -> all_nonempty cs2 -> cs1 <> [] -> cs2 <> [] -> concat cs1 = concat cs2 ->
+  (InstTermX.xml_fuel (length (concat cs1) + length cs1 * (50 * length inj)) <= fuel1)%nat -> (4 <= fuel1)%nat ->
+  (InstTermX.xml_fuel (length (concat cs2) + length cs2 * (50 * length inj)) <= fuel2)%nat -> (4 <= fuel2)%nat ->
+  let f1 := drive_chunked xml_flavour false xml_table simd ent c1 sk fuel1 inj cs1 (mkmach (init_cfg s0 last false) [] [] 0%N) [] in
+  let f2 := drive_chunked xml_flavour false xml_table simd ent c1 sk fuel2 inj cs2 (mkmach (init_cfg s0 last false) [] [] 0%N) [] in
+  ~ In (SPanic 96) (snd f1) -> ~ In (SPanic 96) (snd f2) ->
+  obs (mout (fst f1)) = obs (mout (fst f2)) /\ hd SSuspend (snd f1) = hd SSuspend (snd f2).
+Proof. exact InstTotalDefault.xml_default_mode_chunking_independent_total. Qed.
+Print Assumptions C15_default_mode_chunking_independent_obs_total.
+
+Theorem C15_default_mode_chunking_independent_no_pauses :
+  forall simd ent c1 sk fuel1 fuel2 inj cs1 cs2 s0 last, NoPanic.sk_quiet sk = true -> InstNoPanicX.xml_kind_ok s0 = true ->
+  all_nonempty cs1 -> all_nonempty cs2 -> cs1 <> [] -> cs2 <> [] -> concat cs1 = concat cs2 ->
+  (InstTermX.xml_fuel (length (concat cs1) + length cs1 * (50 * length inj)) <= fuel1)%nat -> (4 <= fuel1)%nat ->
+  (InstTermX.xml_fuel (length (concat cs2) + length cs2 * (50 * length inj)) <= fuel2)%nat -> (4 <= fuel2)%nat ->
+  let f1 := drive_chunked xml_flavour false xml_table simd ent c1 sk fuel1 inj cs1 (mkmach (init_cfg s0 last false) [] [] 0%N) [] in
+  let f2 := drive_chunked xml_flavour false xml_table simd ent c1 sk fuel2 inj cs2 (mkmach (init_cfg s0 last false) [] [] 0%N) [] in
+  obs (mout (fst f1)) = obs (mout (fst f2)) /\ hd SSuspend (snd f1) = hd SSuspend (snd f2).
+Proof. exact InstTotalDefault.xml_default_mode_chunking_independent_quiet. Qed.
+Print Assumptions C15_default_mode_chunking_independent_no_pauses.
